@@ -121,8 +121,14 @@ func (t *ReuseConnTransport) exchangeConnCtx(ctx context.Context, payload []byte
 	}
 	resChan := make(chan res, 1)
 
+	// The goroutine may outlive this call (the caller may leave on ctx before
+	// the payload is written), and the caller releases payload when it
+	// returns. Let the goroutine work on its own copy.
+	p := pool.GetBuf(len(payload))
+	copy(p, payload)
 	go func() {
-		resp, err := t.exchangeConn(payload, c)
+		resp, err := t.exchangeConn(p, c)
+		pool.ReleaseBuf(p)
 		if verifhook.On {
 			verifhook.Gate("rt.send", t, c)
 		}
